@@ -10,11 +10,18 @@ END, ELSE = 256, 257
 
 
 class Interner:
-    def __init__(self):
+    def __init__(self, empty_setstr_is_delete=False):
         self.prims, self.tests = {}, {}
         self.prim_info, self.test_info = [], []
+        # -fuse-delete-for-empty-string rewrites `s = "";` into `delete s;`: when machines compiled with and
+        # without it are compared the two primitives are identified (same contents and length afterwards;
+        # the C templates of both are exercised against the concrete model by C06/C12)
+        self.empty_setstr_is_delete = empty_setstr_is_delete
 
     def pid(self, key, info):
+        if self.empty_setstr_is_delete and key[0] == "setstr" and key[2] == ():
+            key = ("delete", key[1])
+            info = dict(kind="delete", var=key[1], reads=[], writes=[key[1]], reads_last=False, strict=info.get("strict", False))
         if key not in self.prims:
             self.prims[key] = len(self.prims)
             self.prim_info.append(dict(info, key=repr(key)))
@@ -281,3 +288,41 @@ From NV Require Import Machine.Dfa.
 Notation mkT := Build_trans.
 Notation mkD := Build_dfa.
 """
+
+
+# ---------------------------------------------------------------------------
+# printing in the text format read by ocaml/machk.ml
+# ---------------------------------------------------------------------------
+def text_atree(a):
+    k = a[0]
+    if k == "end":
+        return "E"
+    if k == "prim":
+        return "P %d %s" % (a[1], text_atree(a[2]))
+    if k == "test":
+        return "T %d %s %s" % (a[1], text_atree(a[2]), text_atree(a[3]))
+    if k == "ret":
+        r = a[1]
+        return "R D" if r[0] == "done" else ("R F %d" % r[1] if r[0] == "finish" else "R Y %d" % r[1])
+    if k == "goto":
+        return "G %d" % (a[1] if a[1] is not None else 999999)
+    if k == "break":
+        return "B %d" % (a[1] if a[1] is not None else 999999)
+    raise ValueError(a)
+
+
+def text_trans(t):
+    return "%x %d %d %d %d %s" % (on_mask(t["on"]), -1 if t["tgt"] is None else t["tgt"], t["fall"], t["err"], t["early"], text_atree(t["acts"]))
+
+
+def text_dfa(m):
+    L = ["dfa %d %d %d %d %d %s %s" % (len(m["states"]), m["start"], m["strict_done"], m["end_check"], len(m["acc"]),
+                                      " ".join(map(str, m["acc"])), text_atree(m["start_acts"]))]
+    for st in m["states"]:
+        if st["kind"] == "fail":
+            L.append("F")
+        elif st["kind"] == "cond":
+            L.append("C %d %s" % (len(st["brs"]), " ".join("%d %s" % (-1 if c is None else c, text_trans(t)) for c, t in st["brs"])))
+        else:
+            L.append("N %d %s" % (len(st["trans"]), " ".join(text_trans(t) for t in st["trans"])))
+    return "\n".join(L)
